@@ -169,6 +169,9 @@ def run(R):
     common.blocked_all(R, ro, "C01.BLOCKED-ALL")
     # ---- BUILD
     build_rules(R, ro)
+    if R.tier == "thorough":
+        from ..cyir import compile_witness
+        compile_witness(R)
     R.require_min("C01.SHAPE", 7)
     R.require_min("C01.FLOW-RESULT", 10)
     R.require_min("C01.BUILD", 40)
